@@ -118,6 +118,41 @@ theorem operations_never_alter_secrets (w : World) (hw : Reachable w) (op : Op) 
       ((∃ news : List Sk, c'.map (·.2) = news ++ c.map (·.2) ∧ ∀ x ∈ news, w.rng ≤ x.tok) ∨
        c'.map (·.2) = (c.map (·.2)).take 1) := step_secrets w hw op k c hl
 
+/-- **A new attribute inherits nothing, over every history.** In any reachable world, after
+`add_attribute` (which hands out the identifier `nextId`) and the `update_msk` that makes it
+effective, every secret of every right that involves the new attribute was drawn by that update:
+no right of the master key mentioned that identifier before (whatever was deleted earlier), so no
+user key issued before holds, or can be refreshed into holding through old rights, a secret that
+opens encapsulations for the new attribute. -/
+theorem new_attribute_inherits_nothing (w : World) (hw : Reachable w) (dn nm : String) (hyb : Bool)
+    (after : Option String) (ids : List Nat) (hi : w.msk.structure_.nextId ∈ ids) (c : List (Bool × Sk))
+    (hl : ((w.step (.edit (.addAttr dn nm hyb after))).step .update).msk.secrets.lookup (Right.fromPoint ids) = some c) :
+    ∀ v ∈ c, w.rng ≤ v.2.tok := by
+  have hc := reachable_coh w hw
+  -- before the edit no right of the master key mentions the identifier about to be handed out
+  have hnone : w.msk.secrets.lookup (Right.fromPoint ids) = none := by
+    cases hlk : w.msk.secrets.lookup (Right.fromPoint ids) with
+    | none => rfl
+    | some c0 =>
+      exfalso
+      obtain ⟨ids0, h1, h2⟩ := hc.below _ c0 hlk
+      have hperm := (Right.fromPoint_eq_iff _ _).1 h1
+      exact Nat.lt_irrefl _ (h2 _ (hperm.mem_iff.1 hi))
+  have hsec1 : (w.step (.edit (.addAttr dn nm hyb after))).msk.secrets = w.msk.secrets := by
+    simp only [World.step]
+    cases w.msk.structure_.apply (.addAttr dn nm hyb after) <;> rfl
+  have hrng1 : (w.step (.edit (.addAttr dn nm hyb after))).rng = w.rng := by
+    simp only [World.step]
+    cases w.msk.structure_.apply (.addAttr dn nm hyb after) <;> rfl
+  have hcs := step_chain (w.step (.edit (.addAttr dn nm hyb after))) .update (Right.fromPoint ids)
+  rw [hsec1, hnone, hl, hrng1] at hcs
+  cases hcs with
+  | born _ t hy ro _ _ h1 _ =>
+    intro v hv
+    simp only [List.mem_singleton] at hv
+    subst hv
+    exact h1
+
 /-- non-vacuity: delete then add — the new attribute gets a new identifier (2), not the deleted one's (0) -/
 example : (Struct.empty.run [.addDim "D" false, .addAttr "D" "A" false none, .addAttr "D" "B" false none,
     .delAttr "D" "A", .addAttr "D" "C" false none]).dims = [("D", ⟨false, [("B", ⟨1, false, false⟩), ("C", ⟨2, false, false⟩)]⟩)] := by
